@@ -110,6 +110,61 @@ impl Dec for f32 {
     }
 }
 impl Val for f32 {}
+
+/// `w` — a payload whose `+ - * /` are NOT commutative: words over `a..z` (at most 24 letters; longer results are cut), every
+/// operator is concatenation with an infix mark (`+` none, `*` `x`, `-` `m`, `/` `d`). Token: `W:<letters>` (`W:` = empty word).
+/// Used to observe the ORDER in which the generic combinators (sum, product, difference, quotient, Datum arithmetic) combine.
+#[derive(Clone, Copy, Debug, PartialEq, Eq)]
+pub struct Word {
+    pub len: u8,
+    pub b: [u8; 24],
+}
+impl Word {
+    pub fn cat(self, mark: &[u8], rhs: Word) -> Word {
+        let mut out = self;
+        for &c in mark.iter().chain(rhs.b[..rhs.len as usize].iter()) {
+            if (out.len as usize) < out.b.len() {
+                out.b[out.len as usize] = c;
+                out.len += 1;
+            }
+        }
+        out
+    }
+}
+impl Default for Word {
+    fn default() -> Self {
+        Word { len: 0, b: [0; 24] }
+    }
+}
+impl core::ops::Add for Word { type Output = Word; fn add(self, r: Word) -> Word { self.cat(b"", r) } }
+impl core::ops::Mul for Word { type Output = Word; fn mul(self, r: Word) -> Word { self.cat(b"x", r) } }
+impl core::ops::Sub for Word { type Output = Word; fn sub(self, r: Word) -> Word { self.cat(b"m", r) } }
+impl core::ops::Div for Word { type Output = Word; fn div(self, r: Word) -> Word { self.cat(b"d", r) } }
+impl core::ops::AddAssign for Word { fn add_assign(&mut self, r: Word) { *self = self.cat(b"", r) } }
+impl core::ops::MulAssign for Word { fn mul_assign(&mut self, r: Word) { *self = self.cat(b"x", r) } }
+impl core::ops::SubAssign for Word { fn sub_assign(&mut self, r: Word) { *self = self.cat(b"m", r) } }
+impl core::ops::DivAssign for Word { fn div_assign(&mut self, r: Word) { *self = self.cat(b"d", r) } }
+impl Enc for Word {
+    fn enc(&self) -> String {
+        format!("W:{}", core::str::from_utf8(&self.b[..self.len as usize]).unwrap_or("?"))
+    }
+}
+impl Dec for Word {
+    fn dec(tok: &str) -> R<Self> {
+        let r = tok.strip_prefix("W:").ok_or(Bad)?;
+        if r.len() > 24 || !r.bytes().all(|c| c.is_ascii_lowercase()) {
+            return Err(Bad);
+        }
+        let mut w = Word::default();
+        for c in r.bytes() {
+            w.b[w.len as usize] = c;
+            w.len += 1;
+        }
+        Ok(w)
+    }
+}
+impl Val for Word {}
+
 impl Enc for bool {
     fn enc(&self) -> String {
         if *self { "true" } else { "false" }.to_string()
